@@ -67,6 +67,7 @@ DEVIATIONS = {
     'SymbolValueCached': ('OwnSymbols', 'sym'),
     'LineNumsRangeCached': ('OwnSymbols', 'symLineNums'),
     'PreprocessorArgsAccumulate': ('ThreeWaysAgree', 'sym'),
+    'ValidatedValueCached': ('OwnSymbols', 'symBad'),
 }
 
 
@@ -91,7 +92,7 @@ def cfg(families, muts=ALL_MUTS, core_muts=CORE_MUTS, ends=ENDS, later=ALL_MUTS,
 # ======================================================================================== concretisation
 # One table: abstract instruction -> source text.  @HOME@ (directory of the root suite) and @LOG@ (the file the
 # probes append to, outside every sandbox) are filled in by the worker.
-ATOMS = {a: a for a in ('va', 'vb', 'vc', 'vd', 've', 'b0', '+', '*', 'x1', 'x2', 's1', 'v1', 'v2', 'v3')}
+ATOMS = {a: a for a in ('va', 'vb', 'vc', 'vd', 've', 'b0', '+', '*', 'x1', 'x2', 's1', 'v1', 'v2', 'v3', 'vbad')}
 PP_MARK, PP_DONE = 'PPMARK', 'PPDONE'
 PHASES = ['conf', 'setup', 'act', 'before-assert', 'assert', 'cleanup']
 SCOPE_OPT = {'all': '', 'act': '-of act ', 'non': '-of !act '}
@@ -146,13 +147,18 @@ def sds_lines(kind, tag):
     }[kind]
 
 
+def val_no(v):
+    """v1 v2 v3 -> 1 2 3; vbad -> 4 (values like any other, but the INTEGERs and the REGEX are ill-formed)"""
+    return 4 if v == 'vbad' else int(v[1:])
+
+
 def own_definitions(n):
     """what case number-of-value n of the sym family defines: one symbol per type, each with a value of its own"""
     return ['def string V_S = s%d' % n,
-            'def string V_N = %d' % n,
+            'def string V_N = %s' % (n if n != 4 else 'x'),
             'def list V_L = a%d b%d' % (n, n),
-            'def string V_T = %d' % (0 if n == 1 else 60),
-            "def string V_RX = 's[%d]'" % n,
+            'def string V_T = %s' % ('x' if n == 4 else 0 if n == 1 else 60),
+            "def string V_RX = '%s'" % ('s[%d]' % n if n != 4 else '('),
             'def path V_P = -rel-tmp own%d.txt' % n,
             'def text-matcher V_TM = equals s%d' % n,
             'def text-transformer V_TT = replace s%d X' % n,
@@ -258,9 +264,9 @@ def render(i, own, ph):
     if op == 'sdsAssert':
         return SDS_ASSERT[a]
     if op == 'defOwn':
-        return own_definitions(int(c[0][1:]))
+        return own_definitions(val_no(c[0]))
     if op == 'actown':
-        return ['% sh @HOME@/atc.sh ' + c[0][1:]]
+        return ['%% sh @HOME@/atc.sh %d' % val_no(c[0])]
     if op == 'symLog':
         return sym_lines(a, tagstring(i, own, ph, 'sym'))
     if op == 'symAssert':
@@ -427,8 +433,8 @@ def project(r, task, o):
         elif f[0] == 'V' and len(f) == 3 and rec['k'] == 'ref':
             rec['x'] = f[2]
         elif f[0] == 'V' and len(f) == 3 and rec['k'] == 'sym':
-            ns = [n for n in (1, 2, 3) if rec['tag'] in SYM_KINDS and sym_value(rec['tag'], n) == f[2]]
-            rec['x'] = 'v%d' % ns[0] if ns else 'OTHER:' + f[2]
+            ns = [n for n in (1, 2, 3, 4) if rec['tag'] in SYM_KINDS and sym_value(rec['tag'], n) == f[2]]
+            rec['x'] = ('vbad' if ns[0] == 4 else 'v%d' % ns[0]) if ns else 'OTHER:' + f[2]
         elif f[0] == 'V' and len(f) == 3 and rec['k'] == 'sds':
             m = SDS_ROOT.match(f[2])
             rec.update(root=m.group(1) if m else 'NOT-A-SANDBOX:' + f[2],
@@ -733,9 +739,10 @@ def plans(tier):
     if tier == 'quick':
         return [('main', dict(families=['hist', 'merge', 'sds', 'sym'], ends=QUICK_ENDS,
                               later=['none', 'refX', 'def', 'obsT', 'expand'],
-                              len_all=2, len_core=0, merge_case_sets='two', sds_cases=(2,)), None)]
+                              len_all=2, len_core=0, merge_case_sets='two', sds_cases=(2,),
+                              sym_vals=('v1', 'v2', 'vbad')), None)]
     return [('main', dict(families=['hist', 'merge', 'sds', 'sym'], len_all=2, len_core=3, merge_case_sets='all',
-                          sds_cases=(2, 3), sym_vals=('v1', 'v2', 'v3'), sym_len=3), None),
+                          sds_cases=(2, 3), sym_vals=('v1', 'v2', 'v3', 'vbad'), sym_len=3), None),
             ('triples', dict(families=['hist'], ends=QUICK_ENDS, later=['none', 'refX', 'def', 'obsT', 'expand', 'envAct'],
                              len_all=3, len_core=4), None),
             ('random', dict(families=['file']), 1500)]
@@ -777,7 +784,8 @@ def run(ctx):
                  merge=dict(families=['merge'], merge_case_sets='two'),
                  sds=dict(families=['sds'], sds_kinds=['arg', 'equals']),
                  sym=dict(families=['sym'], sym_kinds=['strArg', 'exitCode', 'timeoutInt']),
-                 symLineNums=dict(families=['sym'], sym_kinds=['lineNums', 'lineNum']))
+                 symLineNums=dict(families=['sym'], sym_kinds=['lineNums', 'lineNum']),
+                 symBad=dict(families=['sym'], sym_kinds=['strArg', 'exitCode', 'matchesRx'], sym_vals=('v1', 'vbad')))
     refutations = {}
     gate = threading.Semaphore(3)
 
